@@ -120,6 +120,8 @@ class ChildSchema(Schema):
     def handle_compatibility(self, data: dict, **kwargs: Any) -> dict:  # noqa: ANN401, ARG002
         """Make pymysensors data compatible with aiomysensors."""
         # Conversion of pymysensors data to aiomysensors format.
+        if not isinstance(data, dict):
+            return data  # Let the schema report the invalid input type.
         if "id" in data:
             data["child_id"] = data.pop("id")
         if "type" in data:
@@ -150,6 +152,8 @@ class NodeSchema(Schema):
     def handle_compatibility(self, data: dict, **kwargs: Any) -> dict:  # noqa: ANN401, ARG002
         """Make pymysensors data compatible with aiomysensors."""
         # Conversion of pymysensors data to aiomysensors format.
+        if not isinstance(data, dict):
+            return data  # Let the schema report the invalid input type.
         if "sensor_id" in data:
             data["node_id"] = data.pop("sensor_id")
         if "type" in data:
